@@ -448,7 +448,8 @@ def translate_group(group: dict, repo: Path) -> typing.Tuple[str, typing.List[st
     """Returns (lean text, list of problems)."""
     problems: typing.List[str] = []
     src_path = repo / group["source"]
-    out = ["import PyLib", "/-! GENERATED by tools/py2lean.py from %s -- do not edit. -/" % group["source"], ""]
+    out = ["import PyLib", "/-! GENERATED by tools/py2lean.py from %s -- do not edit. -/" % group["source"],
+           "set_option linter.unusedVariables false", ""]
     out += group.get("preamble", []) + [""]
     try:
         src = src_path.read_text()
@@ -522,6 +523,16 @@ def main() -> int:
             print(text)
         if not p.exists() or p.read_text() != text:
             p.write_text(text)
+    sys.path.insert(0, str(Path(__file__).resolve().parent))
+    import py2lean_layout  # noqa: E402
+
+    text, problems = py2lean_layout.translate_layout(Path(args.repo))
+    all_problems += problems
+    p = outdir / "Layout.lean"
+    if args.print:
+        print(text)
+    if not p.exists() or p.read_text() != text:
+        p.write_text(text)
     for pr in all_problems:
         print("py2lean: " + pr)
     return 3 if all_problems else 0
